@@ -15,10 +15,16 @@ Families (spec["fam"]):
   or       OrValue family (dispatchable and backtracking, tagged, shared nodes, repeated variables) x hosts
   commute  RewriteRule.commute(): every variant against the operand-swapped pattern, in product order
   random   Hypothesis: random patterns (<= 8 node patterns, all constructs) x planted / mutated / random hosts (<= 20 nodes)
+
+Regions of recorded findings (names usable in VERIF_C06_EXCLUDE and as `region` of known_findings entries; predicates in
+REGIONS): pattern_node_more_outputs_than_host, or_shared_across_alternative, or_needs_backtracking,
+commute_untagged_backtracking_or, commute_returns_or_value, commute_or_value_used_twice, commute_commutative_op_not_binary,
+commute_three_output_nodes.
 """
 from __future__ import annotations
 
 import os
+import random
 import re
 from collections import Counter
 
@@ -31,20 +37,27 @@ LEVEL = "exploration"
 EXHAUSTIVE = True
 RULE = ("A pattern AST and a host-graph AST over {Neg, Add(commutative), Sub, Split(2 outputs), custom::Foo} are compiled (i) to "
         "a real GraphPattern through the public construction API (OpsetPatternBuilder(record=True), Var, AttrVar, Constant, "
-        "OrValue, ANY_VALUE, pattern_builder; a sample also through generated `def p(op, x, ...)` text, both routes must "
-        "agree) and an onnx_ir graph, and (ii) evaluated by the reference matcher vf/patspec.solve (all OR choices x all host "
-        "nodes for additional output nodes, remaining assignment forced; cross-checked against the pure brute force over ALL "
-        "total assignments pattern-node -> host-node on a deterministic sample). Per (pattern, host, root node, remove_nodes, "
-        "graph-output variant): Pattern.match truthiness must equal 'spec has an instance' (soundness and completeness); when "
-        "both match, (bindings, set of matched nodes, output values) must equal those of one spec instance; with commute every "
-        "rule of RewriteRule.commute() is compared with the operand-swapped pattern. Domains: bounded-exhaustive canonical forms "
-        "(quick: all patterns <=2 node patterns x all hosts <=3 nodes x all roots over variables/node references, <=2 x <=2 with "
-        "constant/ANY operands, feature / constant / OR / commute families; thorough: <=3 x <=3 complete plus <=2 x 4 and 3 x 4 "
-        "strided samples with the covered fraction reported) plus Hypothesis random patterns (<=8 node patterns: repeated "
-        "variables, constants, attribute constants/variables, allow_other_*, None/optional inputs, OR (dispatch / backtracking, "
-        "tags), several outputs, shared nodes, custom domain) x hosts (<=20 nodes) with a planted instance, a one-edit near "
-        "miss, or random. Non-trivial = the spec finds >=1 instance for the triple, or the best candidate violates exactly one "
-        "atomic constraint (near miss); distinct by (pattern, host) pair hash (triples counted in nontrivial_triples).")
+        "OrValue, ANY_VALUE, pattern_builder; a sample also through generated `def p(op, x, ...)` text - both routes are judged "
+        "by the same oracle) and to an onnx_ir graph, and (ii) evaluated by the reference matcher vf/patspec.solve (all OR "
+        "choices x all host nodes for the additional output nodes, remaining assignment forced; cross-checked on every 64th "
+        "triple against the pure brute force over ALL total assignments pattern-node -> host-node). Per (pattern, host, root "
+        "node, remove_nodes, graph-output variant of the host): Pattern.match truthiness must equal 'the spec has an instance' "
+        "(soundness and completeness); when both match, (bindings, set of matched nodes, output values) must equal those of one "
+        "spec instance; with commute every rule of RewriteRule.commute() is compared with the operand-swapped pattern in product "
+        "order. Enumerated families of canonical forms (variables numbered by first use): struct = all patterns with <=2 node "
+        "patterns x all hosts with <=3 nodes x all roots over variable / node-reference operands (quick: <=2 distinct variables "
+        "and inputs; thorough <=3 variables); outs = the same patterns with reversed output order / an intermediate value "
+        "returned; leaf = constant / ANY_VALUE operands x hosts with an initializer; feature = attribute constants / variables, "
+        "_allow_other_attributes, _allow_other_inputs, None / optional inputs, _outputs count and names, _domain x focus-node "
+        "hosts; const = scalar / list constants and tolerances x constant tensors (dtype, rank, inside / outside tolerance, "
+        "initializer / Constant node); or = OrValue alternatives (dispatchable / backtracking, tags, repeated variables, shared "
+        "nodes) x hosts <=3 nodes; commute = patterns with Add x hosts <=3 nodes; thorough adds strided samples of 3x3, 2x4, 3x4 "
+        "(covered_fraction per family in the evidence; `exhaustive` is true only if every family declared complete for the tier "
+        "was enumerated completely). Plus Hypothesis-seeded random patterns (<=8 node patterns, every construct incl. several "
+        "output nodes and custom domain) x hosts (<=20 nodes) with a planted instance in random context, a one-edit near miss of "
+        "it, or a random graph. Non-trivial = the spec finds >=1 instance for the triple, or the best candidate violates exactly "
+        "one atomic constraint (near miss); distinct by (pattern, host) pair (thorough: pattern x block of 16 hosts, to bound "
+        "memory); the exact number of non-trivial triples is reported as nontrivial_triples.")
 ASSUMPTIONS = [
     "vf/patspec.py states the documented meaning of patterns (docs/tutorial/rewriter/*.md, docstrings of _pattern_ir/_matcher): "
     "homomorphic term matching (two pattern nodes may map to one host node), a host node may have more outputs than the pattern "
@@ -53,7 +66,7 @@ ASSUMPTIONS = [
     "the first pattern output node (in order of the returned outputs) is the one matched against the given node (docstring of "
     "SimplePatternMatcher.match)",
 ]
-FLOOR = {"quick": 20000, "thorough": 200000}
+FLOOR = {"quick": 200000, "thorough": 500000}
 TIMEOUT = {"quick": 900, "thorough": 4 * 3600}
 
 # Named regions of recorded findings the generators stay out of (see REGIONS for the predicates over stored cases).
@@ -130,11 +143,87 @@ def region_commute_or(pat):
     return any(not ps.or_is_dispatch(pat, k) and not o["tag"] for k, o in enumerate(pat["ors"]))
 
 
+def _swappable(pat):
+    return any((n["dom"], n["op"]) in ps.COMMUTATIVE and len(n["ins"]) == 2 for n in pat["nodes"])
+
+
+def region_commute_returns_or(pat):
+    """commute() on a pattern with a swappable node that returns an OR value as a pattern output."""
+    return _swappable(pat) and any(v[0] == "or" for v in pat["outs"])
+
+
+def region_commute_or_twice(pat):
+    """commute() on a pattern with a swappable node in which one OR value object is used more than once."""
+    if not _swappable(pat):
+        return False
+    uses = Counter()
+    for n in pat["nodes"]:
+        for v in n["ins"]:
+            if v[0] == "or":
+                uses[v[1]] += 1
+    for o in pat["ors"]:
+        for v in o["alts"]:
+            if v[0] == "or":
+                uses[v[1]] += 1
+    for v in pat["outs"]:
+        if v[0] == "or":
+            uses[v[1]] += 1
+    return any(c > 1 for c in uses.values())
+
+
+def region_commute_not_binary(pat):
+    """commute() on a pattern in which a commutative operator is written with a number of operands other than two."""
+    return any((n["dom"], n["op"]) in ps.COMMUTATIVE and len(n["ins"]) != 2 for n in pat["nodes"])
+
+
+def region_commute_three_outputs(pat):
+    """commute() variants of a pattern with three or more output nodes (and something to swap)."""
+    return _swappable(pat) and len(ps.output_nodes(pat)) >= 3
+
+
+COMMUTE_REGIONS = {
+    "commute_commutative_op_not_binary": region_commute_not_binary,
+    "commute_three_output_nodes": region_commute_three_outputs,
+    "commute_untagged_backtracking_or": lambda pat: region_commute_or(pat),
+    "commute_returns_or_value": region_commute_returns_or,
+    "commute_or_value_used_twice": region_commute_or_twice,
+}
+
+
+def commute_excluded(col, pat):
+    """Name of the first active commute region the pattern falls into (counted), else None."""
+    for name, pred in COMMUTE_REGIONS.items():
+        if name in ACTIVE and pred(pat):
+            col.exclude(name)
+            return name
+    return None
+
+
+def region_or_backtracking(case):
+    """Every instance of the case needs a later alternative of a backtracking OR although an earlier one matches locally."""
+    pat, host = case["pat"], case["host"]
+    variants = ps.commute_variants(pat) if case.get("commute") else [pat]
+    view = ps.PatView(variants[case.get("variant", 0)])
+    hv = ps.HostView(host)
+    sols, _ = ps.solve(view, hv, case["root"])
+    if case.get("remove"):
+        g = hv.gouts
+        if case.get("gout") and case["gout"][1]:
+            v = tuple(case["gout"][1])
+            g = g | {v} if case["gout"][0] == "add" else g - {v}
+        sols = [s for s in sols if ps.is_removable(s, hv, g)]
+    return bool(sols) and all(ps.needs_or_backtracking(view.pat, hv, s) for s in sols)
+
+
 REGIONS = {
     "or_shared_across_alternative": lambda case: region_or_shared(case["pat"]),
     "pattern_node_more_outputs_than_host": lambda case: region_nout(case["pat"], case["host"]),
     "commute_untagged_backtracking_or": lambda case: bool(case.get("commute")) and region_commute_or(case["pat"]),
-    "or_needs_backtracking": lambda case: any(not ps.or_is_dispatch(case["pat"], k) for k in range(len(case["pat"]["ors"]))),
+    "commute_returns_or_value": lambda case: bool(case.get("commute")) and region_commute_returns_or(case["pat"]),
+    "commute_commutative_op_not_binary": lambda case: bool(case.get("commute")) and region_commute_not_binary(case["pat"]),
+    "commute_three_output_nodes": lambda case: bool(case.get("commute")) and region_commute_three_outputs(case["pat"]),
+    "commute_or_value_used_twice": lambda case: bool(case.get("commute")) and region_commute_or_twice(case["pat"]),
+    "or_needs_backtracking": region_or_backtracking,
 }
 
 
@@ -207,6 +296,7 @@ def _conv(v, H):
 
 def _norm_reason(r):
     r = re.sub(r"Value \S+", "Value _", r or "")
+    r = re.sub(r"Binding failure: .* bound to", "Binding failure: _ bound to", r)
     r = re.sub(r"\d+", "N", r)
     r = re.sub(r"anonymous:N", "anon", r)
     return r[:90]
@@ -229,9 +319,14 @@ def judge(view, hv, obs, sols, best, remove, gouts, root=None):
             return [], False, nontrivial
         reason = _norm_reason(getattr(obs[1], "reason", "") if obs[1] is not None else "None")
         if pat["ors"] and all(ps.needs_or_backtracking(pat, hv, s) for s in ok):
+            if "or_needs_backtracking" in ACTIVE:
+                return [("__excluded__", "or_needs_backtracking")], True, True
             return [("completeness:or-needs-backtracking", f"spec instance {ok[0].env} nodes {sorted(ok[0].nodes)}; impl: {reason}")], True, True
         return [(f"completeness:{reason}", f"spec instance {ok[0].env} nodes {sorted(ok[0].nodes)}")], True, True
     _, env, nodes, outs = obs
+    if len(outs) != len(pat["outs"]):
+        # a truthy MatchResult that carries no output values: the matcher bailed out of a node without failing the match
+        return [("result:truthy-match-without-outputs", f"impl bindings {env} nodes {nodes} outputs {outs}; spec instances: {len(ok)}")], bool(ok), nontrivial
     if not ok:
         if sols:
             why = "not-removable"
@@ -380,15 +475,12 @@ def run_pair(col, stt, pc, H, modes, brute_every=0, counter=None, size=0, roots=
                 if obs[0] == "yes" and len(set(obs[2])) != len(obs[2]):
                     stt.dup_nodes += 1
                 for bucket, detail in verdicts:
+                    if bucket == "__excluded__":
+                        col.exclude(detail)
+                        continue
                     col.violation(bucket, detail, case_json(pc, vi, host, root, remove, mode), size=size or (len(pc.pat["nodes"]) * 100 + hv.n))
     stt.triples += evals
     return evals, any_nt
-
-
-def _choices(view):
-    import itertools
-
-    return itertools.product(*view.nalts)
 
 
 def record_pair(col, stt, pc, H, evals, nt, key, extra_classes=[]):  # noqa: B006
@@ -423,29 +515,36 @@ def family(fam, tier):
     big = tier == "thorough"
     if fam == "struct":  # variables / node references only, outputs = the sinks in node order
         return (list(ps.enum_patterns(2, maxv=3 if big else 2, leaves=(), out_variants=False)), _hosts(3, 2), {})
-    if fam == "outs":  # the same patterns with reversed output order / an intermediate value returned additionally
+    if fam in ("outs2", "outs3"):  # the same patterns with reversed output order / an intermediate value returned additionally
         mv = 3 if big else 2
         plain = {ps.t(p) for p in ps.enum_patterns(2, maxv=mv, leaves=(), out_variants=False)}
         pats = [p for p in ps.enum_patterns(2, maxv=mv, leaves=(), out_variants=True) if ps.t(p) not in plain]
-        return (pats, _hosts(3, 2 if big else 1), {})
+        if fam == "outs2":
+            return (pats, _hosts(2, 2), {})
+        return (pats, _hosts(3, 2 if big else 1, exact=3), {})
     if fam == "leaf":  # numeric constant / ANY_VALUE operands x hosts with an initializer operand
         pats = [p for p in ps.enum_patterns(2, maxv=2, leaves=("c", "any"), out_variants=False)
                 if any(v[0] in ("c", "any") for n in p["nodes"] for v in n["ins"])]
-        return (pats, _hosts(3 if big else 2, 2, const_leaf=True), {})
+        return (pats, _hosts(3, 1, const_leaf=True) if big else _hosts(2, 2, const_leaf=True), {})
     if fam == "feature":
         return (ps.feature_patterns(full=big), ps.feature_hosts(), {})
     if fam == "const":
         return (ps.const_patterns(), ps.const_hosts(), {})
     if fam == "or2":
-        return (ps.or_patterns(tags=True), _hosts(2, 2), {})
-    if fam == "or3":
-        return (ps.or_patterns(tags=True), _hosts(3, 2, exact=3), {"modes": big})
+        return (ps.or_patterns(tags=True, full=big), _hosts(2, 2), {})
+    if fam == "or3":  # 3-node hosts: quick = those where every node feeds the last node, root = last node only
+        if big:
+            return (ps.or_patterns(tags=True), _hosts(3, 2, exact=3), {})
+        return (ps.or_patterns(tags=False, full=False), ps.cone_hosts(_hosts(3, 2, exact=3)), {"modes": False, "roots": "last"})
     if fam in ("commute2", "commute3"):
         pats = [p for p in ps.enum_patterns(2, maxv=2, leaves=("c",) if big else (), out_variants=False)
                 if any(n["op"] == "Add" for n in p["nodes"])]
         pats += [p for p in ps.or_patterns(tags=False) if any(n["op"] == "Add" for n in p["nodes"])][:: (1 if big else 4)]
-        hosts = _hosts(2, 2) if fam == "commute2" else _hosts(3, 2, exact=3)
-        return (pats, hosts, {"modes": False, "commute": True})
+        if fam == "commute2":
+            return (pats, _hosts(2, 2), {"modes": False, "commute": True})
+        if big:
+            return (pats, _hosts(3, 2, exact=3), {"modes": False, "commute": True})
+        return (pats, ps.cone_hosts(_hosts(3, 2, exact=3)), {"modes": False, "commute": True, "roots": "last"})
     if fam == "struct33":  # thorough: 3 node patterns x <=3 node hosts
         pats = [p for p in ps.enum_patterns(3, maxv=2, leaves=(), out_variants=False) if len(p["nodes"]) == 3]
         return (pats, _hosts(3, 2), {"modes": False})
@@ -458,11 +557,11 @@ def family(fam, tier):
 
 
 # (family, shards, fraction of the hosts enumerated: 1.0 = declared complete for the tier, < 1 = strided sample)
-QUICK = [("struct", 14, 1.0), ("outs", 2, 1.0), ("leaf", 2, 1.0), ("feature", 3, 1.0), ("const", 1, 1.0), ("or2", 1, 1.0),
-         ("or3", 3, 1 / 16), ("commute2", 1, 1.0), ("commute3", 2, 1 / 32)]
-THOROUGH = [("struct", 8, 1.0), ("outs", 8, 1.0), ("leaf", 16, 1.0), ("feature", 8, 1.0), ("const", 1, 1.0), ("or2", 2, 1.0),
-            ("or3", 32, 1.0), ("commute2", 2, 1.0), ("commute3", 32, 1.0), ("struct33", 128, 1.0), ("struct24", 32, 0.02),
-            ("struct34", 32, 0.0002)]
+QUICK = [("struct", 24, 1.0), ("outs2", 1, 1.0), ("outs3", 2, 1 / 4), ("leaf", 4, 1.0), ("feature", 6, 1.0), ("const", 1, 1.0),
+         ("or2", 1, 1.0), ("or3", 6, 1.0), ("commute2", 1, 1.0), ("commute3", 3, 1 / 4)]
+THOROUGH = [("struct", 8, 1.0), ("outs2", 1, 1.0), ("outs3", 16, 1.0), ("leaf", 48, 1.0), ("feature", 8, 1.0), ("const", 1, 1.0),
+            ("or2", 2, 1.0), ("or3", 32, 1.0), ("commute2", 2, 1.0), ("commute3", 32, 0.5), ("struct33", 48, 0.25),
+            ("struct24", 16, 0.02), ("struct34", 8, 0.0002)]
 
 
 def plan(tier, seed, budget):
@@ -498,8 +597,7 @@ def run_exhaustive(spec, col, stt):
         if "or_shared_across_alternative" in ACTIVE and p["ors"] and region_or_shared(p):
             col.exclude("or_shared_across_alternative")
             continue
-        if opt.get("commute") and "commute_untagged_backtracking_or" in ACTIVE and region_commute_or(p):
-            col.exclude("commute_untagged_backtracking_or")
+        if opt.get("commute") and commute_excluded(col, p):
             continue
         pc = PatCtx(p, commute=bool(opt.get("commute")))
         pc.pid = i
@@ -519,6 +617,7 @@ def run_exhaustive(spec, col, stt):
                 pattern_errors(col, pc.text)
                 pc.text = None
         pcs.append(pc)
+    gran = 1 if spec["tier"] == "quick" else 16  # thorough: distinct key per (pattern, block of 16 hosts) to bound memory
     counter = [spec["part"]]
     done_pairs = excluded_pairs = done_hosts = 0
     total_pairs = len(pcs) * len(range(spec["part"], len(hosts), spec["of"]))
@@ -531,12 +630,13 @@ def run_exhaustive(spec, col, stt):
                 col.exclude("pattern_node_more_outputs_than_host")
                 excluded_pairs += 1
                 continue
-            evals, nt = run_pair(col, stt, pc, H, modes, brute_every=64, counter=counter)
+            evals, nt = run_pair(col, stt, pc, H, modes, brute_every=64, counter=counter,
+                                 roots=[H.view.n - 1] if opt.get("roots") == "last" else None)
             if pc.text is not None and done_hosts < 48:
                 e2, nt2 = run_pair(col, stt, pc.text, H, modes[:1])
                 stt.text_route += e2
                 evals += e2
-            record_pair(col, stt, pc, H, evals, nt, (fam, pc.pid, hi), extra_classes=["fam:" + fam])
+            record_pair(col, stt, pc, H, evals, nt, (fam, pc.pid, hi // gran), extra_classes=["fam:" + fam])
             done_pairs += 1
         done_hosts += 1
     col.extra["pairs_in_domain"] = {fam: total_pairs}
@@ -563,7 +663,9 @@ def random_case(rnd):
 
 
 def run_random(spec, col, stt):
-    def body(rnd):
+    def body(seed_value):
+        # the whole case is a pure function of the drawn integer (structure generators take a seeded random.Random)
+        rnd = random.Random(seed_value)
         pat, host, kind, flags = random_case(rnd)
         if not ps.host_is_wellformed(host) or len(host["nodes"]) > 24:
             col.skip("generator_host_not_wellformed")
@@ -575,8 +677,7 @@ def run_random(spec, col, stt):
             col.exclude("pattern_node_more_outputs_than_host")
             return
         commute = flags["commute"] and sum(1 for n in pat["nodes"] if n["op"] == "Add" and len(n["ins"]) == 2) in (1, 2, 3)
-        if commute and "commute_untagged_backtracking_or" in ACTIVE and region_commute_or(pat):
-            col.exclude("commute_untagged_backtracking_or")
+        if commute and commute_excluded(col, pat):
             commute = False
         nout_nodes = len(ps.output_nodes(pat))
         nalt = 1
@@ -603,7 +704,7 @@ def run_random(spec, col, stt):
         record_pair(col, stt, pc, H, evals, nt, ("random", ps.t(pat), ps.t(host)),
                     extra_classes=["fam:random", "host:" + kind, "route:" + pc.route])
 
-    drive(st.randoms(use_true_random=False), body, spec["n"], spec["seed"])
+    drive(st.integers(min_value=0, max_value=2**62), body, spec["n"], spec["seed"])
 
 
 def _active(spec):
@@ -671,5 +772,5 @@ def replay(case):
     finally:
         if undo:
             undo()
-    verdicts, _, _ = judge(view, H.view, obs, sols, best, remove, gouts)
-    return verdicts
+    verdicts, _, _ = judge(view, H.view, obs, sols, best, remove, gouts, root)
+    return [v for v in verdicts if v[0] != "__excluded__"]
